@@ -51,7 +51,7 @@ def run(world, rep, tier, only=None):
     prog = world.program("debugfs")
     ea = {f.name: f for f in prog.fns_in_file(EA)}
     for need in ("ext2fs_xattr_set", "ext2fs_xattrs_write", "write_xattrs_to_buffer", "space_used", "xattr_array_update",
-                 "xattr_update_entry", "ext2fs_xattr_remove", "read_xattrs_from_buffer"):
+                 "xattr_update_entry", "ext2fs_xattr_remove", "read_xattrs_from_buffer", "prep_ea_block_for_write"):
         if need not in ea:
             raise Broken("%s:%s not found" % (EA, need))
     xs, xw = ea["ext2fs_xattr_set"], ea["ext2fs_xattrs_write"]
@@ -200,6 +200,22 @@ def run(world, rep, tier, only=None):
     rep.ob("C15.d", site(rm, "in-inode count follows the removed position"), bool(dec) and all(
         any("ibody_count" in T.field_names(a) for t, a in control_lits(rm, n)) for n in dec),
         "ibody_count-- only when the removed entry was in the inode body")
+
+    # ------------------------------------------------------------------ C15.f one block, one charge
+    # prep_ea_block_for_write() gives the inode a block of its own: a first block is charged to i_blocks, a copy made
+    # of a shared block replaces a block the inode was already charged for
+    pw_ = ea["prep_ea_block_for_write"] if "prep_ea_block_for_write" in ea else prog.fn("prep_ea_block_for_write", EA)
+    adds = calls_to(pw_, "ext2fs_iblk_add_blocks")
+    rep.floor("C15.f i_blocks charge in prep_ea_block_for_write", len(adds), 1)
+    for i, a in enumerate(adds):
+        lits = control_lits(pw_, a)
+        # the charge sits on the "inode has no xattr block yet" side of the test of the current block number
+        def from_acl(x):
+            return depends_on(pw_, x, lambda y: y.get("k") == "c" and y.get("fn") == "ext2fs_file_acl_block", depth=1)
+        ok = any((not t) and from_acl(at) for t, at in lits)
+        rep.ob("C15.f", site(pw_, "i_blocks charged only for a first xattr block#%d" % i), ok,
+               "ext2fs_iblk_add_blocks() runs only when ext2fs_file_acl_block() was 0: guards %s" %
+               [("" if t else "!") + T.pp(at)[:30] for t, at in lits][-3:])
 
     # ------------------------------------------------------------------ C15.e write-back
     prep = calls_to(xw, "prep_ea_block_for_write")
